@@ -351,22 +351,8 @@ impl Assembler for IntervalAssembler {
             ; vpshufd xmm2, Rx(reg(lhs_reg)), 0b01000001_i8
             ; vpshufd xmm1, Rx(reg(rhs_reg)), 0b00010001_i8
             ; vmulps xmm2, xmm2, xmm1 // xmm2 contains all 4 results
-
-            // Extract the horizontal minimum into out
-            ; vpshufd xmm1, xmm2, 0b00001110 // xmm1 = [_, _, 3, 2]
-            ; vminps xmm1, xmm1, xmm2 // xmm1 = [_, _, min(3, 1), min(2, 0)]
-            ; vpshufd Rx(reg(out_reg)), xmm1, 0b00000001 // out = max(3, 1)
-            ; vminss Rx(reg(out_reg)), Rx(reg(out_reg)), xmm1 // out[0] is lowest value
-
-            // Extract the horizontal maximum into xmm2
-            ; vpshufd xmm1, xmm2, 0b00001110 // xmm1 = [_, _, 3, 2]
-            ; vmaxps xmm1, xmm1, xmm2 // xmm1 = [_, _, max(3, 1), max(2, 0)]
-            ; vpshufd xmm2, xmm1, 0b00000001 // xmm2 = max(3, 1)
-            ; vmaxss xmm2, xmm2, xmm1 // xmm2[0] is highest value
-
-            // Splice the two together
-            ; vunpcklps Rx(reg(out_reg)), Rx(reg(out_reg)), xmm2
         );
+        self.build_bounds_from_candidates(out_reg);
     }
     fn build_div(&mut self, out_reg: u8, lhs_reg: u8, rhs_reg: u8) {
         dynasm!(self.0.ops
@@ -389,22 +375,9 @@ impl Assembler for IntervalAssembler {
             ; vpshufd xmm2, Rx(reg(lhs_reg)), 0b01000001_i8
             ; vpshufd xmm1, Rx(reg(rhs_reg)), 0b00010001_i8
             ; vdivps xmm2, xmm2, xmm1 // xmm2 contains all 4 results
-
-            // Extract the horizontal minimum into out
-            ; vpshufd xmm1, xmm2, 0b00001110 // xmm1 = [_, _, 3, 2]
-            ; vminps xmm1, xmm1, xmm2 // xmm1 = [_, _, min(3, 1), min(2, 0)]
-            ; vpshufd Rx(reg(out_reg)), xmm1, 0b00000001 // out = max(3, 1)
-            ; vminss Rx(reg(out_reg)), Rx(reg(out_reg)), xmm1 // out[0] is lowest value
-
-            // Extract the horizontal maximum into xmm2
-            ; vpshufd xmm1, xmm2, 0b00001110 // xmm1 = [_, _, 3, 2]
-            ; vmaxps xmm1, xmm1, xmm2 // xmm1 = [_, _, max(3, 1), max(2, 0)]
-            ; vpshufd xmm2, xmm1, 0b00000001 // xmm2 = max(3, 1)
-            ; vmaxss xmm2, xmm2, xmm1 // xmm2[0] is highest value
-
-            // Splice the two together
-            ; vunpcklps Rx(reg(out_reg)), Rx(reg(out_reg)), xmm2
-
+        );
+        self.build_bounds_from_candidates(out_reg);
+        dynasm!(self.0.ops
             ; E:
         );
         self.0.ops.commit_local().unwrap();
@@ -898,6 +871,52 @@ impl Assembler for IntervalAssembler {
 
 #[expect(clippy::useless_conversion)]
 impl IntervalAssembler {
+    /// Reduces the four candidate bounds in `xmm2` to `[min, max]` in `out_reg`
+    ///
+    /// NaN candidates (`0 * inf`, `inf / inf`) are ignored, as `f32::min` and
+    /// `f32::max` do in the interpreter's `Interval` arithmetic; `vminps` and
+    /// `vmaxps` alone return their second operand whenever either is NaN,
+    /// which can discard a real candidate.  If every candidate is NaN, the
+    /// result is the NaN interval.  Clobbers `xmm1-3`.
+    fn build_bounds_from_candidates(&mut self, out_reg: u8) {
+        dynasm!(self.0.ops
+            // xmm1 = mask of NaN candidates
+            ; vcmpunordps xmm1, xmm2, xmm2
+
+            // xmm3 = candidates, with NaN replaced by +inf
+            ; vpcmpeqd xmm3, xmm3, xmm3
+            ; vpslld xmm3, xmm3, 24
+            ; vpsrld xmm3, xmm3, 1 // 0x7f800000
+            ; vblendvps xmm3, xmm2, xmm3, xmm1
+
+            // Extract the horizontal minimum into out
+            ; vpshufd Rx(reg(out_reg)), xmm3, 0b00001110 // out = [_, _, 3, 2]
+            ; vminps xmm3, Rx(reg(out_reg)), xmm3 // xmm3 = [_, _, min(3, 1), min(2, 0)]
+            ; vpshufd Rx(reg(out_reg)), xmm3, 0b00000001 // out = min(3, 1)
+            ; vminss Rx(reg(out_reg)), Rx(reg(out_reg)), xmm3 // out[0] is lowest value
+
+            // xmm3 = candidates, with NaN replaced by -inf
+            ; vpcmpeqd xmm3, xmm3, xmm3
+            ; vpslld xmm3, xmm3, 23 // 0xff800000
+            ; vblendvps xmm3, xmm2, xmm3, xmm1
+
+            // Extract the horizontal maximum into xmm2
+            ; vpshufd xmm2, xmm3, 0b00001110 // xmm2 = [_, _, 3, 2]
+            ; vmaxps xmm3, xmm2, xmm3 // xmm3 = [_, _, max(3, 1), max(2, 0)]
+            ; vpshufd xmm2, xmm3, 0b00000001 // xmm2 = max(3, 1)
+            ; vmaxss xmm2, xmm2, xmm3 // xmm2[0] is highest value
+
+            // Splice the two together
+            ; vunpcklps Rx(reg(out_reg)), Rx(reg(out_reg)), xmm2
+
+            // If every candidate was NaN, we now have [+inf, -inf]; turn it
+            // into the NaN interval (both lanes all-ones)
+            ; vcmpltss xmm1, xmm2, Rx(reg(out_reg)) // upper < lower
+            ; vpshufd xmm1, xmm1, 0
+            ; vorps Rx(reg(out_reg)), Rx(reg(out_reg)), xmm1
+        );
+    }
+
     fn ensure_callee_regs_saved(&mut self) {
         // Back up a few callee-saved registers that we're about to use
         if !self.0.saved_callee_regs {
